@@ -608,9 +608,9 @@ func (w *tWriter) finish() (f *tFile, err error) {
 
 // Drops the table.
 func (w *tWriter) drop() error {
-	if err := w.close(); err != nil {
-		return err
-	}
+	// Remove the file even if closing it failed, otherwise the unfinished
+	// table stays in the storage until the next reopen.
+	cerr := w.close()
 	w.tw = nil
 	w.first = nil
 	w.last = nil
@@ -618,5 +618,5 @@ func (w *tWriter) drop() error {
 		return err
 	}
 	w.t.s.reuseFileNum(w.fd.Num)
-	return nil
+	return cerr
 }
